@@ -3,13 +3,39 @@ package openapi3
 import (
 	"fmt"
 	"regexp"
+	"strings"
 )
 
-var patRewriteCodepoints = regexp.MustCompile(`(?P<replaced_with_slash_x>\\u)(?P<code>[0-9A-F]{4})`)
-
-// See https://pkg.go.dev/regexp/syntax
+// intoGoRegexp rewrites the `\uXXXX` escapes of ECMA 262 regular expressions, which Go's syntax
+// does not have, as `\x{XXXX}`. See https://pkg.go.dev/regexp/syntax
+// The pattern is read escape by escape: the `u` of an escaped backslash followed by `u0041` (`\\u0041`,
+// a literal backslash and five literal characters) is not an escape, and hex digits come in both cases.
 func intoGoRegexp(re string) string {
-	return patRewriteCodepoints.ReplaceAllString(re, `\x{${code}}`)
+	if !strings.Contains(re, `\u`) {
+		return re
+	}
+	isHex := func(c byte) bool {
+		return '0' <= c && c <= '9' || 'a' <= c && c <= 'f' || 'A' <= c && c <= 'F'
+	}
+	var b strings.Builder
+	for i := 0; i < len(re); i++ {
+		if re[i] != '\\' || i+1 == len(re) {
+			b.WriteByte(re[i])
+			continue
+		}
+		if re[i+1] == 'u' && i+6 <= len(re) && isHex(re[i+2]) && isHex(re[i+3]) && isHex(re[i+4]) && isHex(re[i+5]) {
+			b.WriteString(`\x{`)
+			b.WriteString(re[i+2 : i+6])
+			b.WriteByte('}')
+			i += 5
+			continue
+		}
+		// any other escape, `\\` included, goes through as the pair it is
+		b.WriteByte(re[i])
+		b.WriteByte(re[i+1])
+		i++
+	}
+	return b.String()
 }
 
 // NOTE: racey WRT [writes to schema.Pattern] vs [reads schema.Pattern then writes to compiledPatterns]
